@@ -251,7 +251,10 @@ impl Property for C08 {
             rules,
             ..Default::default()
         };
-        let inherited = !cheat_prone && index % 3 == 2;
+        // the cheat-prone shape runs under its own jobserver or, half of the
+        // time, under an inherited make-style one (the cheat pipe must then be
+        // handed down by redo itself)
+        let inherited = if cheat_prone { rng.chance(1, 2) } else { index % 3 == 2 };
         let mut meta = BTreeMap::new();
         let log_pm = if cheat_prone { 1000 } else { *rng.pick(&[0u64, 700, 1000, 1000]) };
         let mut cmds = Vec::new();
@@ -270,7 +273,7 @@ impl Property for C08 {
             ts.dedup();
         }
         if inherited {
-            let k = rng.range(0, 6) as u32;
+            let k = if cheat_prone { rng.range(1, 2) as u32 } else { rng.range(0, 6) as u32 };
             let prog = if rng.chance(1, 2) { "redo" } else { "redo-ifchange" };
             let mut c = redo_cmd(rng, prog, &ts, 1, log_pm);
             c.argv.retain(|a| !a.starts_with("-j"));
